@@ -242,7 +242,7 @@ func vC03Exec(t *testing.T, c *vh.Case, sc vC03Scn, mode string, at time.Duratio
 
 func TestVerif_C03_fullrt(t *testing.T) {
 	vh.Run(t, vh.Spec{Prop: "C03", Unit: "fullrt", Quick: 400, Thorough: 15000, CostMs: 120,
-		Rule: "FullRT over a simulated network (1-40 crawled peers; 0-100% failing: dead, request error, silent until the 10 s read timeout, 30 s late, dial failure, 20 s dial stall; 0-100% of the connections dropped after the crawl so that operations dial; K in {1,2,3,5,8,20}, success wait fraction in {0.1,0.3,0.5,1}, per-operation timeout 0.5/5 s, bulk parallelism 1/2/20); one operation per case out of GetClosestPeers, FindPeer (found / unknown), GetValue, SearchValue, FindProviders, FindProvidersAsync(count), PutValue, Provide, ProvideMany, PutMany (1-30 keys); run un-cancelled, then on fresh instances: cancelled before the call, with a deadline, and cancelled at up to 4 PRNG-chosen boundary instants of the un-cancelled run's wire events; virtual time; non-trivial = the un-cancelled run made at least 2 RPCs and at least one cancelled run was cut short; distinct by (operation, shape, behaviour mix, cancel instants)",
+		Rule:    "FullRT over a simulated network (1-40 crawled peers; 0-100% failing: dead, request error, silent until the 10 s read timeout, 30 s late, dial failure, 20 s dial stall; 0-100% of the connections dropped after the crawl so that operations dial; K in {1,2,3,5,8,20}, success wait fraction in {0.1,0.3,0.5,1}, per-operation timeout 0.5/5 s, bulk parallelism 1/2/20); one operation per case out of GetClosestPeers, FindPeer (found / unknown), GetValue, SearchValue, FindProviders, FindProvidersAsync(count), PutValue, Provide, ProvideMany, PutMany (1-30 keys); run un-cancelled, then on fresh instances: cancelled before the call, with a deadline, and cancelled at up to 4 PRNG-chosen boundary instants of the un-cancelled run's wire events; virtual time; non-trivial = the un-cancelled run made at least 2 RPCs and at least one cancelled run was cut short; distinct by (operation, shape, behaviour mix, cancel instants)",
 		Clauses: []string{"no-panic", "returns-after-last-rpc", "returns-after-cancel", "returns-within-30min", "background-ends", "close-ends-all"}},
 		func(c *vh.Case) {
 			sc := vC03Gen(c)
